@@ -1,7 +1,7 @@
 (* C08 — invoking a user macro is the same as writing its body with arguments substituted. *)
 From Coq Require Import List NArith Bool String.
 Import ListNotations.
-Require Import St Loop Doc.
+Require Import St Exp Proc1 Proc2 Proc3 Ctl Loop Doc IncludeProofs.
 Open Scope string_scope.
 Definition same_output (f a b : string) : bool := str_eqb (out_of (run_doc f 0 a)) (out_of (run_doc f 0 b)) && quiet (run_doc f 0 a) && quiet (run_doc f 0 b).
 Example C08_examples : forallb (fun f => same_output f ".#de m
@@ -13,3 +13,24 @@ The key \$1 is set \$@.
 The key C:\edir is set x y.
 ") ["xhtml"; "latex"; "mom"; "markdown"] = true.
 Proof. vm_compute. reflexivity. Qed.
+
+(* An executed invocation (within the depth, expansion and argument-size limits, not supplying too many arguments)
+   runs the body with the arguments substituted (Model/Proc3.subst_block, the model of argsSubstBlock) through the same
+   dispatcher, one level deeper, with diagnostics located at the outermost call site; afterwards it only restores the
+   current file name, the call depth and the current-block flag. *)
+Theorem C08_call_runs_the_substituted_body : forall pb m n l c s o sa blocks sd,
+  process s = true ->
+  Nat.ltb 42 (cdepth c) = false -> Nat.leb max_macro_expansions (xcount c) = false ->
+  Nat.ltb max_macro_args_size (args_size (args s)) = false ->
+  parse_opts (um_opts m) (args s) s = (o, sa) ->
+  negb (um_list m) && Nat.ltb (um_argsc m) (List.length (po_args o)) = false ->
+  substituted m o sa = (blocks, sd) ->
+  user_macro pb m n l (c, s) =
+    let c1 := set_budget (S (xcount c)) (xexh c) c in
+    let se := if Nat.eqb (cdepth c1) 0 then sd <| cloc := Some (l, n, cfile sd) |> else sd in
+    let '(cf, sf) := pb blocks (set_cdepth (S (cdepth c1)) c1, se <| has_cur := true |> <| cfile := um_file m |>) in
+    let cg := set_cdepth (Nat.pred (cdepth cf)) cf in
+    let sg := sf <| has_cur := has_cur s |> <| cfile := cfile s |> in
+    if Nat.eqb (cdepth cg) 0 then (set_budget 0 false cg, sg <| cloc := None |>) else (cg, sg).
+Proof. exact call_runs_the_body. Qed.
+Print Assumptions C08_call_runs_the_substituted_body.
